@@ -245,6 +245,29 @@ func ParseSPSNALUnit(data []byte, parseVUIBeyondAspectRatio bool) (*SPS, error) 
 	return sps, reader.AccError()
 }
 
+// picSizeInMapUnits returns PicSizeInMapUnits = PicWidthInMbs * PicHeightInMapUnits (Section 7.4.2.1.1)
+// recovered from the cropped Width and Height.
+func (s *SPS) picSizeInMapUnits() uint {
+	var cropUnitX, cropUnitY uint = 1, 1
+	var frameMbsOnly uint = 0
+	if s.FrameMbsOnlyFlag {
+		frameMbsOnly = 1
+	}
+	switch s.ChromaFormatIDC {
+	case 0, 3:
+		cropUnitX, cropUnitY = 1, 2-frameMbsOnly
+	case 1:
+		cropUnitX, cropUnitY = 2, 2*(2-frameMbsOnly)
+	case 2:
+		cropUnitX, cropUnitY = 2, 2-frameMbsOnly
+	}
+	width := s.Width + (s.FrameCropLeftOffset+s.FrameCropRightOffset)*cropUnitX
+	height := s.Height + (s.FrameCropTopOffset+s.FrameCropBottomOffset)*cropUnitY
+	picWidthInMbs := width / 16
+	picHeightInMapUnits := height / 16 / (2 - frameMbsOnly)
+	return picWidthInMbs * picHeightInMapUnits
+}
+
 // CpbDbpDelaysPresent signals if Cpb and Dbp can be found in Picture Timing SEI
 func (s *SPS) CpbDpbDelaysPresent() bool {
 	if s.VUI == nil {
